@@ -123,3 +123,20 @@ static inline void iora_idmap_clear(iora_idmap *m) { m->present = false; G_map_n
 #endif
 
 static inline void iora_drainvec_push(iora_drainvec *v, uint64_t id, void *cb, int64_t deadline) { v->n++; v->last.id = id; v->last.callback = cb; v->last.deadline = deadline; }
+
+/* drain(): lifecycle clauses. fireCallback(id, cb) is the ONLY place drain() invokes handlers. */
+size_t G_drain_fires, G_drain_fires_while_accepting; _Bool G_acc_entry; int64_t G_clock_floor;
+static inline int64_t iora_clock_now(void) { int64_t t = nondet_i64(); IORA_ASSUME(t >= G_clock_floor && t <= ((int64_t)1 << 61)); return t; }
+static inline size_t iora_firelist_size(const iora_firelist *l) { return l->n; }
+static inline uint64_t iora_firelist_id_at(const iora_firelist *l, size_t k) { IORA_ASSERT(k < l->n, "fire list iteration in range"); return nondet_u64(); }
+static inline void *iora_firelist_cb_at(const iora_firelist *l, size_t k) { IORA_ASSERT(k < l->n, "fire list iteration in range"); return (void *)0; }
+static inline void TimingWheel_fireCallback(TimingWheel *self, uint64_t id, void *cb)
+{
+  (void)id; (void)cb; G_drain_fires++;
+  IORA_ASSERT(!self->_accepting, "D3 drain() invokes no handler while the wheel is accepting (a handler that re-arms itself would be accepted into a wheel nobody advances)");
+}
+/* the fire loop: it never writes _accepting (frame: not in the assigns clause) */
+#define IORA_LOOP_TimingWheel_drainFire_1 IORA_LC( \
+  __CPROVER_assigns(iora_f, stats->fired, G_drain_fires) \
+  __CPROVER_loop_invariant(iora_f <= toFire->n && stats->fired == iora_f && G_drain_fires == iora_f) \
+  __CPROVER_decreases(toFire->n - iora_f))
